@@ -80,6 +80,33 @@ Theorem c05_literal_ifs_refuted :
 Proof. exact literal_ifs_refuted. Qed.
 Print Assumptions c05_literal_ifs_refuted.
 
+(** The same equivalence on the larger fragment [frag2]: additionally ${p:-w} ${p-w} ${p:+w} ${p+w}
+    with a scalar parameter p and a list-free default / alternative word w (text, quotes, scalar
+    expansions, command and arithmetic substitutions), outside and inside double quotes. *)
+From BV Require Import Expand.DefaultProofs.
+Theorem c05_fields_model_eq_spec2 : forall o e w,
+  ifs_ws (ifs_of e) -> frag2 w = true -> lit_ok (ifs_of e) w = true ->
+  known_at_null o e w = false -> star_ok e ->
+  spec_fields o e w =
+  match basic_expand o e w with
+  | Ok x => Ok (map tagged (split_fields e x))
+  | Err c => Err c
+  end.
+Proof. exact fields_model_eq_spec2. Qed.
+Print Assumptions c05_fields_model_eq_spec2.
+
+Theorem c05_frag_frag2 : forall w, frag w = true -> frag2 w = true.
+Proof. exact frag_frag2. Qed.
+Print Assumptions c05_frag_frag2.
+
+(** non-vacuity of the larger fragment: x unset, y="a b":  p${x:-$y"q r"}"${x:+z}${y:-d}" *)
+Theorem c05_default_example :
+  frag2 ex_default_word = true /\ frag ex_default_word = false /\
+  spec_fields ex_oracles0 ex_default_env ex_default_word =
+    Ok [[(112, false); (97, false)]; [(98, false); (113, true); (32, true); (114, true); (97, true); (32, true); (98, true)]]%N.
+Proof. exact ex_default_in_fragment. Qed.
+Print Assumptions c05_default_example.
+
 (** Brace expansion (Expand/Brace.v).  The products of the model — itertools' cartesian product of
     the per-group alternatives, concatenated — are the words of the bash manual's rule (each
     alternative of the first group followed by every word of the rest), in the same order, for
